@@ -201,6 +201,33 @@ def run(case, ctx):
         if x.shape != y.shape or not np.array_equal(x, y):
             ctx.violation('result-depends-on-carrier-order', f'{name}: {x[:3]} vs {y[:3]}')
             return
+    # ---- history: a second, smaller spectrum through the very objects used above gives what fresh copies give
+    def gains(p):
+        out = []
+        for e in p:
+            subs = list(e.amplifiers.values()) if isinstance(e, elements.Multiband_amplifier) else \
+                [e] if isinstance(e, elements.Edfa) else []
+            out += [float(x.effective_gain) for x in subs]
+        return out
+    band_of = {f: next(i for i, (lo, hi) in enumerate(common) if lo <= f <= hi) for f in expected}
+    keep_band = band_of[expected[0]]
+    sub = [c for c in comb if c['f'] in band_of and (band_of[c['f']] == keep_band if len(set(band_of.values())) > 1
+                                                    else expected.index(c['f']) % 2 == 0)]
+    if gains(run1) != gains(path):
+        ctx.label('history:not-judged-amplifier-saturated-in-first-propagation')    # known: the object keeps the clamped gain
+    elif sub and len(sub) < len(expected):
+        req3 = copy.deepcopy(req)
+        req3.initial_spectrum = spectra.comb_to_carriers(sub)
+        fresh = copy.deepcopy(path)
+        propagate(run1, req3, equipment)
+        propagate(fresh, req3, equipment)
+        ctx.label('history:second-spectrum-on-used-objects')
+        for name in ('snr_01nm', 'osnr_ase_01nm', 'osnr_nli', 'chromatic_dispersion', 'pmd', 'pdl'):
+            x, y = np.asarray(getattr(run1[-1], name)), np.asarray(getattr(fresh[-1], name))
+            if x.shape != y.shape or not np.array_equal(x, y):
+                ctx.violation('result-depends-on-an-earlier-propagation-through-the-same-objects',
+                              f'{name}: used objects {x[:3]} ({x.shape}), fresh copies {y[:3]} ({y.shape})')
+                return
     nbands = len({next(i for i, (lo, hi) in enumerate(common) if lo <= f <= hi) for f in expected})
     filtered = len(comb) - len(expected)
     ctx.label('filtered:some' if filtered else 'filtered:none', f'bands:{nbands}', 'multiband-path' if multi else 'single-band-path')
